@@ -127,6 +127,30 @@ def families(tier):  # noqa: C901
                                  f'((_ extract {i} {j}) '
                                  f'((_ zero_extend {k}) {o}))))\n')
                 yield 'bv_extract_zext', decl('x', w) + body
+    # --- the same with a formal parameter of a defined function that has
+    # the NAME of the operand and another width (widths are looked up by
+    # name): the assertions are about the constant
+    for w, pw in ((4, 8), (3, 1), (2, 4)):
+        k = 2
+        tot = w + k
+        body = ''
+        for i in range(tot):
+            for j in range(i + 1):
+                body += (f'(assert (= ((_ extract {i} {j}) '
+                         f'((_ zero_extend {k}) x)) ((_ extract {i} {j}) '
+                         f'((_ zero_extend {k}) x))))\n')
+        for order in (0, 1):
+            fun = (f'(define-fun f ((x (_ BitVec {pw}))) (_ BitVec {pw}) '
+                   f'x)\n')
+            yield 'bv_extract_zext_param_name', (
+                (decl('x', w) + fun if order == 0 else fun + decl('x', w))
+                + body)
+        # two functions sharing a parameter name at different widths
+        yield 'bv_extract_zext_param_name', (
+            f'(define-fun g ((p (_ BitVec {w}))) (_ BitVec {w + 1}) '
+            f'((_ extract {w} 0) ((_ zero_extend 2) p)))\n'
+            f'(define-fun h ((p (_ BitVec {pw}))) (_ BitVec {pw}) p)\n'
+            + decl('x', w) + f'(assert (= (g x) (g x)))\n')
     # --- extract over zero_extend of a concat with an operand whose width
     # ddSMT does not know (bvlshr is not in its table) but whose value is
     # defined
